@@ -730,7 +730,7 @@ def run_c19(case):
                                         want=full["last_epoch"]))
     except Exception as ex:
         out.append(viol("C19", "run", "raises:" + type(ex).__name__, innermost_site(ex.__traceback__),
-                        msg=traceback.format_exc()[-400:]))
+                        msg=traceback.format_exc()[-1600:]))
     finally:
         shutil.rmtree(root, ignore_errors=True)
     return _rec19(case, out, stats, steps)
